@@ -151,7 +151,8 @@ impl Char for u8 {
     }
 
     fn is_whitespace(&self) -> bool {
-        self.is_ascii_whitespace()
+        // `u8::is_ascii_whitespace` leaves out vertical tab, which `char::is_whitespace` (and `is_newline` above) include
+        self.is_ascii_whitespace() || *self == b'\x0B'
     }
 
     fn is_newline(&self) -> bool {
